@@ -235,7 +235,10 @@ theorem vis_binop (op : ArithOp) {l r : Expr} (hl : Vis isD al l) (hr : Vis isD 
 theorem vis_compare (op : CmpOp) {l r : Expr} (hl : Vis isD al l) (hr : Vis isD al r) : Vis isD al (.compare op l r) := by
   obtain ⟨a, ha⟩ := hl
   obtain ⟨b, hb⟩ := hr
-  rw [Vis, sqlVisit, ha, hb]; exact ⟨_, rfl⟩
+  rw [Vis, sqlVisit, ha, hb]
+  by_cases hc : (isNullLit l && (op == CmpOp.eq || op == CmpOp.ne)) = true
+  · exact ⟨_, by simp only [Outcome.bind_ok, if_pos hc]; rfl⟩
+  · exact ⟨_, by simp only [Outcome.bind_ok, if_neg hc]; rfl⟩
 theorem vis_boolop (op : BoolOp) {l r : Expr} (hl : Vis isD al l) (hr : Vis isD al r) : Vis isD al (.boolop op l r) := by
   obtain ⟨a, ha⟩ := hl
   obtain ⟨b, hb⟩ := hr
